@@ -529,7 +529,14 @@ def run_one(d, prog, seed, inject_pause=False, inject_evict=False, pause_rate=0.
             after = _core_view(d.view())
             steps += 1
             n_events[0] += 1
-            if after != before and not any(f['signature'].startswith('duplicate-changed-state') for f in fails):
+            changed = [k for k in set(before) | set(after) if before.get(k) != after.get(k)]
+            # a repeated start request may be the one that starts a task which is IDLE again (paused before it started, a
+            # resume-issued request still on its way): the task leaves IDLE and its action / sub-workflow rows appear - that
+            # is a single start, whichever copy of the request performs it; "started twice" is checked separately
+            started_idle = (it['payload'].get('method') == 'start_task' and
+                            sum(1 for k in changed if k.startswith('task:') and (before.get(k) or ('',))[0] == 'IDLE') == 1 and
+                            all(before.get(k) is None or (k.startswith('task:') and before[k][0] == 'IDLE') for k in changed))
+            if after != before and not started_idle and not any(f['signature'].startswith('duplicate-changed-state') for f in fails):
                 diff = sorted(k for k in set(before) | set(after) if before.get(k) != after.get(k))[:4]
                 alld = [k for k in set(before) | set(after) if before.get(k) != after.get(k)]
                 # the known re-pause by a pause-before policy (the policy issues a pause request once more): running
